@@ -93,7 +93,7 @@ func capScenarios(tier string) []clustermc.Scenario {
 	menu := capMenu()
 	k := 3
 	var out []clustermc.Scenario
-	cfgs := []schedrun.Config{{}, {Placement: "spread", NoConsolidation: true}}
+	cfgs := []schedrun.Config{{}, {Placement: "spread", NoConsolidation: true, ConsolidatingReclaim: true}}
 	for _, lay := range capLayouts(tier) {
 		picks := multisetsUpTo(len(menu), k)
 		if tier == "thorough" {
@@ -155,7 +155,7 @@ func extScenarios(tier string) []clustermc.Scenario {
 		k = 4
 	}
 	var out []clustermc.Scenario
-	cfgs := []schedrun.Config{{}, {Placement: "spread", NoConsolidation: true}}
+	cfgs := []schedrun.Config{{}, {Placement: "spread", NoConsolidation: true, ConsolidatingReclaim: true}}
 	for _, lay := range lays {
 		for _, pick := range multisetsUpTo(len(menu), k) {
 			pending := false
